@@ -869,32 +869,84 @@ func init() {
 						continue
 					}
 					k := k
-					s := e.sessionFor(u, 2*time.Hour)
-					e.idp.mu.Lock()
-					e.idp.signAlg = "other"
-					e.idp.mu.Unlock()
-					s.IDToken = e.idp.idToken(u, e.idp.refreshNonce)
-					e.idp.mu.Lock()
-					e.idp.signAlg = ""
-					e.idp.mu.Unlock()
-					s.RefreshToken = fmt.Sprintf("rt-vk-%d", time.Now().UnixNano()) // unknown to the IdP: the refresh fails
-					ck := e.issueSessionCookie(s)
-					e.idp.mu.Lock()
-					e.idp.fault = func(endpoint string, n int, w http.ResponseWriter, r *http.Request) bool {
-						if endpoint == "/keys" {
-							k.f(w, r)
-							return true
+					// ... whether the refresh before it failed (refresh token unknown to the provider) or SUCCEEDED with an answer
+					// that carries new access / refresh tokens but no new ID token: validation runs after every refresh
+					for vi, refreshOK := range []bool{false, true, true} {
+						grow := vi == 2 // ... and the refreshed session no longer fits one cookie (its cookie names change)
+						s := e.sessionFor(u, 2*time.Hour)
+						e.idp.mu.Lock()
+						e.idp.signAlg = "other"
+						e.idp.mu.Unlock()
+						s.IDToken = e.idp.idToken(u, e.idp.refreshNonce)
+						e.idp.mu.Lock()
+						e.idp.signAlg = ""
+						e.idp.mu.Unlock()
+						s.RefreshToken = fmt.Sprintf("rt-vk-%d", time.Now().UnixNano()) // unknown to the IdP: the refresh fails
+						if refreshOK {
+							e.registerRT(s.RefreshToken, u)
 						}
-						return false
+						ck := e.issueSessionCookie(s)
+						e.idp.mu.Lock()
+						e.idp.refreshReturnsIDToken = !refreshOK
+						if grow {
+							e.idp.accessTokenPad = fmt.Sprintf("%x", newRng(uint64(vi)+c.seed).bytes(3000))
+						}
+						e.idp.fault = func(endpoint string, n int, w http.ResponseWriter, r *http.Request) bool {
+							if endpoint == "/keys" {
+								k.f(w, r)
+								return true
+							}
+							return false
+						}
+						e.idp.mu.Unlock()
+						v := e.do(reqSpec{Target: "/app/x", Cookie: ck})
+						resetIDP(e.idp)
+						e.idp.mu.Lock()
+						e.idp.refreshReturnsIDToken = true
+						e.idp.accessTokenPad = ""
+						e.idp.mu.Unlock()
+						if grow {
+							c.count("c14:validate-keys-fault-after-growing-refresh")
+						}
+						c.casen(fmt.Sprintf("c14|validate-keys|%v|%v|%s|%v|%v", redis, audClaims, k.name, refreshOK, grow), fmt.Sprint(v.Status))
+						c.count("c14:validate-keys-fault")
+						if refreshOK {
+							c.count("c14:validate-keys-fault-after-refresh")
+						}
+						// what counts is what the browser is left with and whether anything the response handed out still
+						// authenticates (a re-issue followed by a deletion in the same response nets to "signed out")
+						bb := newBrowser()
+						bb.jarFromHeader(ck)
+						if v.raw != nil {
+							bb.apply(v.raw)
+						}
+						extended := false
+						if hasAnySessionCookie(bb, e.opts.Cookie.Name) {
+							extended = len(e.do(reqSpec{Target: "/app/x", Cookie: bb.cookieHeader()}).Hits) > 0
+						}
+						for _, sc := range v.Cookies {
+							if isSessionCookieNameH(e.opts.Cookie.Name, sc.Name) && sc.MaxAge >= 0 && sc.Value != "" && !extended {
+								extended = len(e.do(reqSpec{Target: "/app/x", Cookie: sc.Name + "=" + sc.Value}).Hits) > 0
+							}
+						}
+						if len(v.Hits) > 0 || extended {
+							c.violation("C14", "a stale session whose ID token does not verify was kept / extended because the key endpoint failed ("+k.name+") during re-validation",
+								map[string]interface{}{"keys_endpoint": k.name, "status": v.Status, "forwarded": len(v.Hits) > 0, "session_still_authenticates": extended,
+									"refresh_before_validation": map[bool]string{false: "failed", true: "succeeded (new access token, no new ID token)"}[refreshOK], "refreshed_session_needs_split_cookies": grow, "cfg": fmt.Sprintf("%+v", cfg)})
+						}
 					}
-					e.idp.mu.Unlock()
-					v := e.do(reqSpec{Target: "/app/x", Cookie: ck})
-					resetIDP(e.idp)
-					c.casen(fmt.Sprintf("c14|validate-keys|%v|%v|%s", redis, audClaims, k.name), fmt.Sprint(v.Status))
-					c.count("c14:validate-keys-fault")
-					if len(v.Hits) > 0 || hasSessionSet(v, e.opts.Cookie.Name) {
-						c.violation("C14", "a stale session whose ID token does not verify was kept because the key endpoint failed ("+k.name+") during re-validation",
-							map[string]interface{}{"keys_endpoint": k.name, "status": v.Status, "forwarded": len(v.Hits) > 0, "cfg": fmt.Sprintf("%+v", cfg)})
+				}
+				// Providers outside the model (GitHub, Bitbucket, ADFS ...) answer "no usable e-mail address" with an EMPTY address and
+				// no error (a 200 profile answer with missing fields): the e-mail validator of the callback is what refuses the
+				// login then, under every configuration of it — also the allow-all one
+				for _, doms := range [][]string{{"*"}, {"example.com", "*"}, {"*", "example.com"}, {"example.com"}} {
+					c.casen(fmt.Sprintf("c14|empty-address|%v", doms), "")
+					c.count("c14:empty-address")
+					for _, addr := range []string{""} {
+						if NewValidator(doms, "")(addr) {
+							c.violation("C14", fmt.Sprintf("the login validator accepts the empty e-mail address %q under email domains %q: a profile answer with missing fields (an empty address, no error) creates a session", addr, doms),
+								map[string]interface{}{"email_domains": doms, "address": addr})
+						}
 					}
 				}
 				// Sweeps over the REAL token-endpoint answer (login and refresh): every strict prefix of the body
